@@ -10,6 +10,9 @@ T2 (correspondence; the Coq side is evaluated by vm_compute on the same inputs):
               (x hook subsets; iteration order = order of the wraps() calls observed)   vs  run_wrapped
   e2e       : mloda.run_all(..., function_extender={...}) on a generated chain of 2-3 feature groups in SYNC and
               THREADING; per-call logs of recording extenders vs run_calls; results with / without extenders
+  e2e_modes : the same configurations in SYNC, THREADING and MULTIPROCESSING (chain, and a two-object plan); the wrapped
+              calls of MULTIPROCESSING run in forked worker processes whose activations come back through a file
+              (harness/mp_obs.py); vs run_calls and run_calls_in (per mode), per-copy invocation counters, and each other
 Strict: the model follows the code repaired by /repo commit 50d7ec2 and is proved equal to the ideal computation
 (C20_chain_ideal, C20_plan_ideal); every disagreement with it is a VIOLATION, and independently of the model every
 wrapped call under a chain is checked in Python for: wrapped function executed exactly once, every extender of the
@@ -541,8 +544,11 @@ def _sink() -> Any:
     return _SINK[0]
 
 
+KF_UNPICKLABLE = "C20-unpicklable-extender-rejected-outside-sync"
+
+
 def run_e2e(exts: List[dict], nsteps: int, mode: str, fail_at: Optional[Tuple[int, str]], hash_seed: int,
-            shape: str = "chain") -> dict:
+            shape: str = "chain", attach_lock: bool = False) -> dict:
     """One mloda.run_all with recording extenders.  shape "chain": G20_0 <- .. <- G20_{nsteps-1} on one compute-framework
     object; "two": the chain plus the independent root G20_9 (a second object: its own extender copies, and in
     MULTIPROCESSING its own worker process; counted as step number nsteps; no failing call in this shape, the two
@@ -554,11 +560,16 @@ def run_e2e(exts: List[dict], nsteps: int, mode: str, fail_at: Optional[Tuple[in
     groups = e2e_groups()
     hv = slot_hashes(random.Random(hash_seed), len(exts))
     objs = {make_ext(x["i"], x["prio"], x["beh"], x["hooks"], hv[j], via_setter=bool(x["i"] % 2)) for j, x in enumerate(exts)}
+    if attach_lock:
+        for o_ in objs:
+            o_.lock = threading.Lock()       # ordinary state of a thread-safe extender; cannot be pickled
     _E2E["fail_at"] = fail_at
     REC.reset()
     exc = None
+    exc_msg = ""
     value = None
     status = "ok"
+    n_timeouts = 0
     kw: Dict[str, Any] = {}
     sink = None
     if mode == "MULTIPROCESSING":
@@ -577,18 +588,21 @@ def run_e2e(exts: List[dict], nsteps: int, mode: str, fail_at: Optional[Tuple[in
     t0 = time.time()
     try:
         if mode == "MULTIPROCESSING":
-            status, res = mp_obs.watchdog(call, 30.0)
+            def again() -> None:
+                REC.reset()
+                sink.reset()
+            status, res, n_timeouts = mp_obs.watchdog_retry(call, 30.0, again)
             if status == "raised":
                 raise res
             if status == "hang":
                 exc = "HANG"
-                mp_obs.kill_stray_children()
         else:
             res = call()
         if status == "ok":
             value = sorted(json.dumps(r.to_pydict(), sort_keys=True) for r in res)
     except Exception as e:  # noqa: BLE001
         exc = type(e).__name__
+        exc_msg = str(e)[-160:]
     finally:
         _E2E["fail_at"] = None
         mp_obs.CUR["sink"] = None
@@ -631,7 +645,8 @@ def run_e2e(exts: List[dict], nsteps: int, mode: str, fail_at: Optional[Tuple[in
             "log": log, "failed": exc is not None, "exc": exc, "value": value, "stray": stray,
             "threads": len({(a.get("pid"), a["thread"]) for a in acts}),
             "processes": len(pids), "acts_in_parent": n_parent, "acts_in_children": len(acts) - n_parent,
-            "counts": counts, "caller_counts": sorted([o.i, o.count] for o in objs), "wall": round(wall, 3)}
+            "counts": counts, "caller_counts": sorted([o.i, o.count] for o in objs), "wall": round(wall, 3),
+            "timeouts": n_timeouts, "exc_msg": exc_msg, "attach_lock": attach_lock}
 
 
 def e2e_specs(rng: random.Random, n_cases: int) -> List[Tuple[List[dict], int, Optional[Tuple[int, str]]]]:
@@ -731,8 +746,12 @@ def run(rep: vlib.Reporter, tier: str, seed: int) -> None:
         "try/except, fallback; code after /repo fix 50d7ec2), "
         "ComputeFramework.get_function_extender and the three run_* wrappers; tied by correspondence (T2) on the inputs "
         "listed under coverage",
-        "recording extenders (harness/c20.py: Rec20) are deterministic, stateless and pass arguments through unchanged; "
+        "recording extenders (harness/c20.py: Rec20) are deterministic and pass arguments through unchanged; their only state is an "
+        "invocation counter (per object: outside SYNC every compute-framework object works on unpickled copies); "
         "calling a function twice is modelled as using its trace twice",
+        "MULTIPROCESSING: activations are recorded inside the forked worker processes by the same class-level wrappers (start "
+        "method fork, checked) and appended to a file the parent reads after the run; held / run_calls_in (Model/Extender.v) "
+        "model which extender set a compute-framework object holds per mode, the per-step iteration orders are observed",
         "except Exception catches every exception raised by the generated extenders / wrapped functions (RuntimeError); a "
         "recording extender calls through at most once and never swallows the wrapped function's exception",
         "observation: per-thread context set by harness-side wrappers around ComputeFramework.run_calculate_feature / "
@@ -878,6 +897,10 @@ def run(rep: vlib.Reporter, tier: str, seed: int) -> None:
     trios: List[Dict[str, dict]] = []
     for k, (exts, nsteps, fail_at) in enumerate(specs_d):
         shape = "two" if k % 3 == 2 else "chain"
+        if shape == "two" and any(len(m_) == 1 and m_[0]["beh"] != "pass" for m_ in ([x for x in exts if h in x["hooks"]] for h in HOOKS)):
+            # a single (bare, unprotected) raising extender makes the run fail; what the OTHER object has done by then depends on
+            # the schedule -- the linear plan model covers failing runs on one object only
+            shape = "chain"
         if shape == "two":
             fail_at = None
         hs = drng.getrandbits(30)
@@ -911,11 +934,12 @@ def run(rep: vlib.Reporter, tier: str, seed: int) -> None:
         pm["activations_in_children"] += c["acts_in_children"]
         pm["activations_in_parent"] += c["acts_in_parent"]
         pm["wall_s"] = round(pm["wall_s"] + c["wall"], 2)
+        pm["timeouts_not_reproduced_on_retry"] = pm.get("timeouts_not_reproduced_on_retry", 0) + int(c.get("timeouts", 0) == 1)
         key = [c["exts"], c["nsteps"], c["shape"], c["mode"], c["fail_at"], c["hash_seed"]]
         if any(len(chain_exts(c, k_)) >= 2 for k_ in HOOKS):
             rep.nontrivial(("D", c["exts"], c["nsteps"], c["shape"], c["mode"], c["fail_at"], c["order"]))
         if c["exc"] == "HANG":
-            violation(f"modes-hang:{json.dumps(key)}", "the run did not return within 30 s: " + describe(c), c)
+            violation(f"modes-hang:{json.dumps(key)}", "the run did not return within 30 s, twice: " + describe(c), c)
             continue
         if not c["failed"] and c["value"] != base_d[(c["shape"], c["nsteps"], c["mode"])]:
             violation(f"modes-result:{json.dumps(key)}", "result with extenders differs from the result without: " + describe(c), c)
@@ -957,6 +981,19 @@ def run(rep: vlib.Reporter, tier: str, seed: int) -> None:
             if a["log"] != b["log"] or a["failed"] != b["failed"] or a["value"] != b["value"]:
                 violation(f"modes-differ:{json.dumps([a['exts'], a['nsteps'], a['shape'], a['fail_at'], a['hash_seed'], m])}",
                           f"the same extender configuration behaves differently in SYNC and {m}: SYNC: " + describe(a) + f" -- {m}: " + describe(b), b)
+    # an extender that holds a lock (not picklable): outside SYNC the extender set is pickled into the manager process
+    wl: Dict[str, Any] = {}
+    xs = [{"i": 0, "prio": 50, "beh": "pass", "hooks": ["calc", "vout"]}, {"i": 1, "prio": None, "beh": "pass", "hooks": ["calc"]}]
+    ref_log = run_e2e(xs, 2, "SYNC", None, 3)["log"]          # the same two extenders without the lock
+    for mode in MODES3:
+        c = run_e2e(xs, 2, mode, None, 3, "chain", attach_lock=True)
+        rejected = c["failed"] and c["exc"] == "TypeError" and "pickle" in c["exc_msg"] and not c["log"]
+        wl[mode] = "rejected: " + c["exc_msg"][-60:] if rejected else ("failed: " + str(c["exc"]) if c["failed"] else "ok")
+        if rejected and mode != "SYNC":
+            rep.finding(KF_UNPICKLABLE, f"run_all in {mode} with an extender holding a threading.Lock raises {c['exc_msg']}", c)
+        elif c["failed"] or c["value"] != base_d[("chain", 2, mode)] or c["log"] != ref_log:
+            violation(f"modes-lock:{mode}", "extenders holding a lock: " + describe(c) + " " + c["exc_msg"], c)
+    rep.coverage["e2e_modes"]["extender_holding_a_lock"] = wl
     rep.coverage["e2e_modes"]["per_mode"] = per_mode
     rep.coverage["e2e_modes"]["cross_mode_comparisons"] = n_cross
     rep.coverage["e2e_modes"]["process_start_method"] = mp_obs.start_method()
@@ -1013,7 +1050,7 @@ def replay(path: str) -> int:
         now = run_wrapped_real(r["exts"], r["kind"], r["wok"], r["hash_seed"])
     elif r.get("level") == "e2e":
         now = run_e2e(r["exts"], r["nsteps"], r["mode"], tuple(r["fail_at"]) if r["fail_at"] else None, r["hash_seed"],
-                      r.get("shape", "chain"))
+                      r.get("shape", "chain"), attach_lock=bool(r.get("attach_lock")))
     else:
         print(json.dumps(r, indent=1))
         return 0
